@@ -39,7 +39,13 @@ def p_timed(rng, w, name):
 
 
 def p_negotiated(rng, w, name):
-    return dict(label="neg", negotiated=True, id=rng.choice([10, 11, 12, 200]), ordered=rng.random() < 0.7)
+    # small ids sit where the automatic allocation of in-band channels starts (0/1, 2/3, ...): two taken ids in a row must be skipped
+    return dict(label="neg", negotiated=True, id=rng.choice([0, 1, 2, 3, 4, 5, 10, 11, 12, 200]), ordered=rng.random() < 0.7)
+
+
+def p_negotiated_low(rng, w, name):
+    # out-of-band channels on the very ids the automatic allocation hands out first
+    return dict(label="negl", negotiated=True, id=rng.choice([0, 1, 2, 3]), ordered=True)
 
 
 def p_explicit_id(rng, w, name):
@@ -61,6 +67,8 @@ PROFILES = {
                     hostile=0.25, sizes=[0, 1, 100, 1200, 3000]),
     "hostile-benign": dict(loss=0.05, dup=0.02, reorder=0.2, chan_params=[p_reliable, p_rexmit], channels=4, close=False,
                            hostile=0.25, forging=False, sizes=[0, 1, 100, 1200, 3000]),
+    "neg-low": dict(loss=0.05, dup=0.02, reorder=0.2, chan_params=[p_negotiated_low, p_negotiated_low, p_reliable], channels=6,
+                    close=False, sizes=[0, 1, 10, 1200, 3000]),
     "lifecycle": dict(loss=0.1, dup=0.02, reorder=0.2, chan_params=[p_reliable, p_rexmit, p_negotiated, p_explicit_id],
                       channels=6, close=True, sizes=[0, 1, 10, 1200, 3000], react=0.04),
 }
